@@ -885,6 +885,7 @@ int vx_main(int argc, char **argv, const struct vx_harness *h)
         f.len = (uint16_t)parse_choices(o_replay, f.choice);
         f.cut = 0xFFFF;
         g_replay = true;
+        setvbuf(stdout, NULL, _IOLBF, 0); /* keep the trace if the replayed run dies */
         S->bound = 1 << 14;
         if (h->worker_init) {
             h->worker_init();
